@@ -22,6 +22,7 @@ CHECKS = {
         "assumptions": ["interleavings are those the Go scheduler produces under the generated load and read chunking; no schedule is forced inside pack/unpack"],
         "runs": [
             {"pkg": "core", "run": "^TestC01CrossTalk$", "quick": 400, "thorough": 12000, "shards_thorough": 8},
+            {"pkg": "core", "run": "^TestC01SequenceNumbers$", "quick": 60, "thorough": 2000, "shards_thorough": 8},
             {"pkg": "thriftw", "run": "^TestC01ThriftSessions$", "quick": 200, "thorough": 6000, "shards_thorough": 4},
         ],
     },
